@@ -2,7 +2,7 @@
    correspondence run).  Nothing but statements closed by `exact`, each followed by
    Print Assumptions. *)
 From Coq Require Import ZArith List Bool Arith Permutation.
-Require Import SkV.C12.Model SkV.C12.Own SkV.C12.Proofs SkV.C12.Bridge.
+Require Import SkV.C12.Model SkV.C12.Own SkV.C12.Proofs SkV.C12.BridgeOwn.
 Import ListNotations.
 
 (* ---- (i) ownership: "never modify the caller's data and never change the estimator" ---- *)
@@ -117,6 +117,16 @@ Theorem C12_any_two_schedules_agree :
   parallel_map (pure_task f) tasks s0 sched = parallel_map (pure_task f) tasks s0' sched'.
 Proof. exact schedule_free_any_two. Qed.
 Print Assumptions C12_any_two_schedules_agree.
+
+(* n_jobs = None or 1 (one worker, tasks in order) and any other n_jobs (any complete schedule)
+   deliver the same list *)
+Theorem C12_sequential_run_agrees_with_any_schedule :
+  forall (A B St : Type) (f : A -> B) (tasks : list A) (s0 : St) sched,
+  complete (length tasks) sched ->
+  parallel_map (pure_task f) tasks s0 sched =
+  parallel_map (pure_task f) tasks s0 (seq 0 (length tasks)).
+Proof. exact sequential_run_agrees. Qed.
+Print Assumptions C12_sequential_run_agrees_with_any_schedule.
 
 (* at any moment of any schedule a filled slot i holds f (task i) *)
 Theorem C12_slots_invariant :
